@@ -236,13 +236,25 @@ prop(
 
 POOL_STAGE = dict(name="c02pool", pkg="c02", test="TestC02Pool", access=[WORKERS_ACCESS, RUN_ACCESS], timeout_quick=300, timeout_thorough=3000)
 
+POOL_DRIFT = ["internal/workers/trigger_pool.go::" + f for f in
+              ["TriggerPool.Start", "TriggerPool.Start.go", "TriggerPool.Trigger", "TriggerPool.halt", "TriggerPool.maxIterationsReached",
+               "TriggerPool.recordDropped", "TriggerPool.run", "TriggerPool.running", "TriggerPool.sendJobsForExecution", "TriggerPool.stop",
+               "TriggerPool.waitForNewJobs", "jobCounter.none", "jobCounter.set", "jobCounter.take"]] + \
+             ["internal/workers/pool_manager.go::" + f for f in
+              ["PoolManager.NextIteration", "PoolManager.IterationsExhausted", "PoolManager.MaxIterationsReached", "PoolManager.WaitForCompletion"]]
+GATE_STAGE = dict(name="poolgate", pkg="c02", test="TestPoolGate", access=[WORKERS_ACCESS, RUN_ACCESS], instrument=True, drift=POOL_DRIFT,
+                  timeout_quick=300, timeout_thorough=3000)
+GATE_RULE = ("; gate enumeration on sources instrumented from the working tree: for every synchronisation point of the trigger pool found by the instrumenter (discovered at run time) the first goroutine arriving there is held "
+             "while an adversary step completes (cancel + the stopper; ticks up to the limit; a tick of `workers` blocking iterations), then released: pending counter <= 0 at completion, started + dropped = sum of accepted ticks, "
+             "ids exactly 1..k (= limit), all workers come to execute; the sync-op listing of the pool's functions is compared with the committed one")
+
 prop(
     id="C02",
-    stages=[POOL_STAGE],
+    stages=[POOL_STAGE, GATE_STAGE],
     rule="histories on the real TriggerPool driven directly (Start / Trigger / cancel / WaitForCompletion) with 1-32 workers and instant or sleeping bodies: "
          "(a) ticks of random sizes (0..10x workers) sent sequentially, cancel after the last one: requested = started + dropped exactly when the pool reports completion; "
          "(b) cancel racing with a ticking goroutine: requested within one tick of started + dropped; (c) limit-ended histories in which every tick waits until the previous one was taken: no iteration may be reported dropped; "
-         "oracle = extracted predicate c02_ok; non-trivial = history with drops or ended by the limit; distinct = distinct observations",
+         "oracle = extracted predicate c02_ok; non-trivial = history with drops or ended by the limit; distinct = distinct observations" + GATE_RULE,
     assumptions=["sync/atomic sequentially consistent; sync.Cond and sync.Mutex semantics as modelled (Wait = release + park; Broadcast wakes all parked)",
                  "a tick counts as requested when its swap executes; from outside the pool a tick refused because triggering had stopped is indistinguishable from one that was never sent",
                  "real interleavings are sampled by stress, not enumerated: the theorems cover all schedules of the model"],
@@ -250,18 +262,18 @@ prop(
 
 prop(
     id="C03",
-    stages=[POOL_STAGE, dict(name="c03runs", pkg="c02", test="TestC03Runs", access=[WORKERS_ACCESS, RUN_ACCESS], timeout_quick=300, timeout_thorough=3000)],
+    stages=[POOL_STAGE, GATE_STAGE, dict(name="c03runs", pkg="c02", test="TestC03Runs", access=[WORKERS_ACCESS, RUN_ACCESS], timeout_quick=300, timeout_thorough=3000)],
     rule="ids (T.Iteration) collected by the scenario in (a) the pool histories of C02 incl. limits 1-60 with 1-8 workers competing for the last ids, (b) whole runs in every trigger mode (constant, staged, ramp, gaussian, users, file with the limit "
          "falling inside one of three stages) with limits 1-400 and concurrency 1-100: sorted ids must be exactly k..1, k <= limit, k = limit when the limit ended the run; oracle = extracted predicate c03_ok; "
-         "non-trivial = limit-ended cases; distinct = distinct observations",
+         "non-trivial = limit-ended cases; distinct = distinct observations" + GATE_RULE,
     assumptions=["atomic.Uint64.Add is an atomic fetch-and-add", "a run that returns well before max-duration with a limit set was ended by the limit"],
 )
 
 prop(
     id="C04",
-    stages=[POOL_STAGE, dict(name="c04runs", pkg="c02", test="TestC04Runs", access=[WORKERS_ACCESS, RUN_ACCESS], timeout_quick=300, timeout_thorough=3000)],
+    stages=[POOL_STAGE, GATE_STAGE, dict(name="c04runs", pkg="c02", test="TestC04Runs", access=[WORKERS_ACCESS, RUN_ACCESS], timeout_quick=300, timeout_thorough=3000)],
     rule="scenario-side atomic in-flight counter with high-water mark and a live set of *T pointers (duplicate insert = shared handle) in (a) the pool histories of C02, (b) whole runs of constant, staged, ramp, gaussian and users triggers "
-         "with concurrency 1-16 whose first iterations only return once `concurrency` of them overlap (rendezvous, 3s timeout = not all workers usable); oracle = extracted predicate c04_ok; non-trivial = rendezvous runs; distinct = distinct observations",
+         "with concurrency 1-16 whose first iterations only return once `concurrency` of them overlap (rendezvous, 3s timeout = not all workers usable); oracle = extracted predicate c04_ok; non-trivial = rendezvous runs; distinct = distinct observations" + GATE_RULE,
     assumptions=["in the model worker i owns handle i by construction; handle identity in the code is observed, not modelled", "file mode is outside the statement (consecutive stages' pools may overlap)"],
 )
 
@@ -280,7 +292,11 @@ C05_DRIFT = ["internal/raterun/runner.go::Runner.Start", "internal/raterun/runne
              "internal/run/result.go::Result.Failed", "internal/run/result.go::Result.SnapshotProgress", "internal/run/result.go::Result.Progress",
              "internal/run/result.go::Result.HasDroppedIterations", "internal/run/result.go::Result.GetTotals",
              "internal/workers/trigger_pool.go::TriggerPool.halt", "internal/workers/trigger_pool.go::TriggerPool.sendJobsForExecution",
-             "internal/workers/trigger_pool.go::TriggerPool.waitForNewJobs", "internal/workers/trigger_pool.go::TriggerPool.Start.go"]
+             "internal/workers/trigger_pool.go::TriggerPool.waitForNewJobs", "internal/workers/trigger_pool.go::TriggerPool.Start.go",
+             "internal/run/test_runner.go::Run.Do", "internal/run/test_runner.go::Run.Do.go", "internal/run/test_runner.go::Run.run",
+             "internal/run/test_runner.go::newProgressRunner.func", "internal/workers/pool_manager.go::PoolManager.WaitForCompletion",
+             "internal/workers/pool_manager.go::PoolManager.WaitForCompletion.go", "internal/workers/continuous_pool.go::ContinuousPool.Start",
+             "internal/workers/continuous_pool.go::ContinuousPool.Start.go", "internal/workers/continuous_pool.go::ContinuousPool.startWorker"]
 
 prop(
     id="C05",
